@@ -198,6 +198,13 @@ def check_c15(tier, rep=None, only_complete=False, only=None):
                     v = cvgen.snv_at(m['ref'], tt, sq, p_, rv.choice([b for b in 'ACGT' if b != sq[p_]]))
                     if not cvgen.overlaps_any(v, small):
                         small.append(v)
+        # at most 5 variants per gene (the oracle enumerates every subset of the variants placed on a fused sequence)
+        rv.shuffle(small)
+        kept, cnt = [], {}
+        for v in small:
+            if cnt.get(v['gene'], 0) < 5:
+                kept.append(v); cnt[v['gene']] = cnt.get(v['gene'], 0) + 1
+        small = kept
         m['small'] = small
         inputs = [os.path.join(m['d'], 'star.gvf')]
         if small:
